@@ -2,6 +2,7 @@
 from common import *
 from progscript import run_script, native_script
 from c26 import fld, ref_sets
+import struct as _struct
 
 QS, FN, WN, EN, GN = [0, 1], ["a", "b"], ["wa", "wb"], ["ea", "eb"], ["RX", "RY"]
 FLAT = "flat(duration: 1.0, iq: 1.0)"
@@ -38,7 +39,8 @@ BODY = [
     Tpl("measure", "MEASURE {q} ro[1]", q=("int", QS)),
     Tpl("reset1", "RESET {q}", q=("int", QS)),
 ]
-QUICK_BODY = ("gate1", "pulse-named", "pulse-args", "reset0", "capture-named", "call", "fence1", "delay1", "measure")
+QUICK_BODY = ("gate1", "pulse-named", "pulse-flat", "pulse-args", "reset0", "capture-named", "call", "fence1", "delay1", "measure")
+SCHED_BODY = ("gate1", "pulse-flat", "fence1", "delay1", "setphase", "reset1")
 DEF_KINDS = ("FrameDefinition", "WaveformDefinition", "Pragma", "Declaration", "GateDefinition", "CircuitDefinition", "CalibrationDefinition", "MeasureCalibrationDefinition")
 
 
@@ -66,7 +68,7 @@ def body_qubits(td, ins):
 
 def oracle(req, decide, td, obs, m=None):
     """obs = [expand status, simplify status, listing(p), listing(expanded), body(expanded), listing(simplified), body(simplified)]"""
-    st_e, st_s, l_p, l_e, b_e, l_s, b_s = obs
+    st_e, st_s, l_p, l_e, b_e, l_s, b_s = obs[:7]
     if not req("status-agrees-with-expansion", "", (st_e == "Ok") == (st_s == "Ok")): return
     if st_e != "Ok": return
     if req("body:length", "", len(b_s) == len(b_e)):
@@ -115,10 +117,27 @@ def oracle(req, decide, td, obs, m=None):
     keep_exactly("FrameDefinition", frame_used)
     keep_exactly("WaveformDefinition", waveform_used)
     keep_exactly("Pragma", extern_used)
+    # every computed block schedule is the same as for the expanded program
+    if len(obs) > 8:
+        se, ss = obs[7], obs[8]
+        if req("schedules:block-count", "", len(se) == len(ss)):
+            for x, y in zip(se, ss):
+                if "sched" in x:
+                    req("schedules:same", "computed", "sched" in y and x["sched"] == y["sched"])
+                else:
+                    req("schedules:same", "uncomputable", "sched_err" in y)
+
+
+def floats(o):
+    """hexadecimal bit patterns of the native schedules -> floats"""
+    if isinstance(o, list): return [floats(x) for x in o]
+    if isinstance(o, dict): return {k: (True if k == "sched_err" else floats(v)) for k, v in o.items()}
+    if isinstance(o, str) and len(o) == 16 and all(c in "0123456789abcdef" for c in o): return _struct.unpack("<d", _struct.pack("<Q", int(o, 16)))[0]
+    return o
 
 
 SCRIPT = [["from", "p", None], ["expand_calibrations", "e", "p"], ["simplify", "s", "p"], ["to_instructions", "p"], ["to_instructions", "e"], ["body", "e"],
-          ["to_instructions", "s"], ["body", "s"]]
+          ["to_instructions", "s"], ["body", "s"], ["block_schedules", "e"], ["block_schedules", "s"]]
 
 
 class C35(Check):
@@ -130,7 +149,10 @@ class C35(Check):
                    "one DEFGATE, one DEFCIRCUIT, at most one calibration (4 shapes) and a body of <= N instructions from 10 templates",
                    "frames used by an instruction: reference sets of the Quil-T rules (shared with C26); waveforms invoked: PULSE / CAPTURE waveform names; externs called: CALL names",
                    "the expanded program is the real expand_calibrations result (its own correctness is C17's subject)"]
-    outside = ["the clause on computed block schedules (needs durations: see C25)", "bodies containing PRAGMA", "more than N body instructions"]
+    outside = ["schedules of bodies outside the schedule sub-space (gate, template pulse, FENCE, DELAY, SET-PHASE, RESET q; calibration none or DEFCAL g v: FENCE v)",
+               "bodies containing PRAGMA", "more than N body instructions",
+               "stubs in the schedule sub-space: ExternSignature::from_str is a table over the alphabet's two signature strings (parsed natively once), "
+               "validate_user_identifier accepts exactly the alphabet's extern names (both go through the lexer, which is not interpreted)"]
     N = {"quick": 2, "thorough": 3}
     sample_rate = 16
     max_paths = {"quick": 800000, "thorough": 8000000}
@@ -144,6 +166,25 @@ class C35(Check):
     def setup(self, world, runner, tier):
         self.td = world.td
         parse_templates(runner, world.td, DEFS + CALS + BODY)
+        # scheduling parses the extern signatures (lexer + parser: text tier).  The two signature strings of the alphabet are
+        # parsed natively once; ExternSignature::from_str is a table lookup on exactly these strings (stub, listed in assumptions)
+        table = {}
+        for sig in ("(x : INTEGER)", "(x : mut INTEGER)"):
+            r = runner.call({"op": "extern_signature_map", "program": f'PRAGMA EXTERN f "{sig}"'})
+            if "ok" not in r: raise native.NativeError(f"extern signature {sig}: {r}")
+            table[sig] = parse_debug(r["ok"])[1][0][1][0][1]          # ExternSignatureMap({"f": sig}) -> sig tree
+
+        def sig_from_str(m, s):
+            text = m.str_concrete(s)
+            if text not in table: raise Unsupported(f"ExternSignature::from_str on {text!r} (only the alphabet's signatures are tabulated)")
+            return OK(from_tree(m.td, table[text], "ExternSignature"))
+        world.models["<ExternSignature as FromStr>::from_str"] = sig_from_str
+
+        def validate_user_identifier(m, s):
+            text = m.str_concrete(s)
+            if text not in EN: raise Unsupported(f"validate_user_identifier on {text!r} (only the alphabet's extern names are tabulated as valid)")
+            return OK(UNIT)
+        world.models["validate_user_identifier"] = world.models["validation::identifier::validate_user_identifier"] = validate_user_identifier
 
     def plan(self, ctx):
         by = {t.name: t for t in CALS + BODY}
@@ -152,19 +193,28 @@ class C35(Check):
         slots += [(by[s], f"b{j}_") for j, s in enumerate(ctx["body"])]
         return slots
 
-    def script(self, n):
-        s = [list(x) for x in SCRIPT]
+    def script(self, n, mode="defs"):
+        s = [list(x) for x in (SCRIPT if mode == "sched" else SCRIPT[:8])]
         s[0][2] = list(range(n))
         return s
 
     def path(self, m):
-        cal = m.choose([(None, None)] + [(t.name, None) for t in CALS])
-        n = m.choose([(j, None) for j in range(1, self.N[m.tier] + 1)])
-        body = [m.choose([(t.name, None) for t in self.body_tpls(m.tier)]) for _ in range(n)]
-        m.ctx = {"cal": cal, "body": body}
+        # two sub-spaces: "defs" (which definitions survive; any body) and "sched" (the schedules of the simplified and the
+        # expanded program; bodies whose durations are known, waveform / extern names pinned: they do not influence timing)
+        mode = m.choose([("defs", None), ("sched", None)])
+        if mode == "defs":
+            cal = m.choose([(None, None)] + [(t.name, None) for t in CALS])
+            n = m.choose([(j, None) for j in range(1, self.N[m.tier] + 1)])
+            body = [m.choose([(t.name, None) for t in self.body_tpls(m.tier)]) for _ in range(n)]
+        else:
+            cal = m.choose([(None, None), ("cal-fence", None)])
+            n = m.choose([(j, None) for j in range(1, self.N[m.tier] + 1)])
+            body = [m.choose([(x, None) for x in SCHED_BODY]) for _ in range(n)]
+        m.ctx = {"cal": cal, "body": body, "mode": mode}
         slots = self.plan(m.ctx)
-        ins = [instantiate(m, t, pre)[0] for t, pre in slots]
-        obs = run_script(m, self.script(len(ins)), ins)
+        pin = {"w": Str(WN[0]), "e": Str(EN[0])} if mode == "sched" else None
+        ins = [instantiate(m, t, pre, shared=pin)[0] for t, pre in slots]
+        obs = run_script(m, self.script(len(ins), mode), ins)
         oracle(lambda k, d, g: m.require(k, d, g), m.branch_bool, m.td, obs, m)
         if m.want_sample() and m._check() == z3.sat:
             zm = m.solver.model()
@@ -176,10 +226,12 @@ class C35(Check):
 
     def case(self, kind, detail, model):
         slots = self.plan(model["_ctx"])
-        return {"texts": [t.render(hole_values(t, pre, model)) for t, pre in slots], "kind": kind, "detail": detail}
+        return {"texts": [t.render(hole_values(t, pre, model)) for t, pre in slots], "mode": model["_ctx"].get("mode", "defs"), "kind": kind, "detail": detail}
 
     def native(self, runner, case):
-        return native_script(runner, self.script(len(case["texts"])), case["texts"])
+        obs, raw = native_script(runner, self.script(len(case["texts"]), case.get("mode", "defs")), case["texts"])
+        if obs is not None and len(obs) > 8: obs[7], obs[8] = floats(obs[7]), floats(obs[8])
+        return obs, raw
 
     def confirm(self, runner, case):
         obs, raw = self.native(runner, case)
